@@ -136,6 +136,10 @@ func runC01(c *Ctx) {
 	p := c.P
 	// shared rule: an object counts as present only together with its size (rules_c09.go)
 	objectPresenceRule(c, "R8", getStoreFlow(p))
+	// shared rule: smudging to a path reports success only after writing the object (rules_round4.go)
+	smudgeToFileRule(c, "R11")
+	// shared rule: the temp-dir sweep spares files a concurrent process is still writing (rules_round4.go)
+	tempCleanupAgeRule(c, "R12")
 	ctt := p.Fn("lfs", "(*GitFilter).copyToTemp")
 	cleanF := p.Fn("lfs", "(*GitFilter).Clean")
 	clean := p.Fn("commands", "clean")
